@@ -84,8 +84,11 @@ theorem C22_atom_chars_decompose (s : List Char) (l : String) :
 /-- chars → atom: one answer, the atom whose text is the list. -/
 theorem C22_atom_chars_compose (s : List Char) (x : String) :
     atomChars (.var x) (charsArg s) = .ok [[(x, .one (.atom s))]] := by
-  simp [atomChars, atomText, charsArg, tailOk, all_ground_con, charsOrVars_chars, filterMap_charOf,
-    answers, unifyArg]
+  have hg := all_ground_con s charAtom
+  have hc := charsOrVars_chars s
+  have hf := filterMap_charOf s
+  simp only [atomChars, atomText, charsArg, tailOk, hg, hc, hf]
+  simp [answers, unifyArg]
 
 /-- both bound: the test `text = list`; so decompose and compose are inverse to each other. -/
 theorem C22_atom_chars_test (s cs : List Char) :
@@ -102,8 +105,11 @@ theorem C22_atom_codes_decompose (s : List Char) (l : String) :
 /-- codes → atom. -/
 theorem C22_atom_codes_compose (s : List Char) (x : String) :
     atomCodes (.var x) (codesArg s) = .ok [[(x, .one (.atom s))]] := by
-  simp [atomCodes, atomText, codesArg, tailOk, all_ground_con, codesOrVars_codes, filterMap_codeOf,
-    answers, unifyArg]
+  have hg := all_ground_con s codeAtomic
+  have hc := codesOrVars_codes s
+  have hf := filterMap_codeOf s
+  simp only [atomCodes, atomText, codesArg, tailOk, hg, hc, hf]
+  simp [answers, unifyArg]
 
 /-- both bound: the test `codes of the text = list`. -/
 theorem C22_atom_codes_test (s cs : List Char) :
@@ -257,8 +263,8 @@ theorem C22_atom_concat_enum (z : List Char) (x y : String) (hxy : x ≠ y) :
   simp only [atomConcat, canBeAtom]
   congr 1
   rw [← List.filterMap_eq_map']
-  apply List.filterMap_congr
-  intro p _
+  congr 1
+  funext p
   simp [unifyArg, bindVar, List.lookup, hb]
 
 /-- atom_concat(X, X, +Z): the splits into two equal halves. -/
@@ -268,8 +274,8 @@ theorem C22_atom_concat_alias (z : List Char) (x : String) :
   simp only [atomConcat, canBeAtom]
   congr 1
   rw [← filterMap_ite]
-  apply List.filterMap_congr
-  intro p _
+  congr 1
+  funext p
   by_cases h : p.2 = p.1 <;> simp [unifyArg, bindVar, List.lookup, h]
 
 /-- atom_concat(+X, +Y, Z) is concatenation; with Z bound it is the test `X ++ Y = Z`. -/
@@ -338,8 +344,8 @@ theorem C22_atom_concat_errors :
   refine ⟨?_, ?_, ?_, ?_, ?_, ?_⟩
   · intros; simp [atomConcat, canBeAtom, Arg.toTerm]
   · intros; simp [atomConcat, canBeAtom, Arg.toTerm, Atomic.toTerm]
-  · intro a1 t a12 h; simp [atomConcat, h, canBeAtom, Arg.toTerm]
-  · intro a1 a2 t h1 h2; simp [atomConcat, h1, h2, canBeAtom, Arg.toTerm]
+  · intro a1 t a12 h; simp only [atomConcat, h]; simp [canBeAtom, Arg.toTerm]
+  · intro a1 a2 t h1 h2; simp only [atomConcat, h1, h2]; simp [canBeAtom, Arg.toTerm]
   · intro x a2 z h
     cases a2 with
     | var n => simp [atomConcat, canBeAtom]
@@ -390,8 +396,8 @@ theorem C22_sub_atom_enum (s : List Char) (b l a sub : String)
   simp only [subAtom, firstErr, canBeAtom, canBeInt, negInt]
   congr 1
   rw [← List.filterMap_eq_map']
-  apply List.filterMap_congr
-  intro t _
+  congr 1
+  funext t
   simp [unifyArg, bindVar, List.lookup, e1, e2, e3, e4, e5, e6, tripleAnswer]
 
 /-- sub_atom(+Atom, B, L, A, +Sub): all occurrences of `Sub`, overlapping ones included, in the
@@ -407,8 +413,8 @@ theorem C22_sub_atom_occurrences (s sub : List Char) (b l a : String)
   simp only [subAtom, firstErr, canBeAtom, canBeInt, negInt]
   congr 1
   rw [← filterMap_ite]
-  apply List.filterMap_congr
-  intro t _
+  congr 1
+  funext t
   by_cases h : sub = t.2.1 <;> simp [unifyArg, bindVar, List.lookup, e1, e2, e4, h]
 
 /-- the occurrences are listed by strictly increasing position: `Before` identifies the answer. -/
@@ -439,22 +445,29 @@ theorem C22_sub_atom_before_length (s : List Char) (b l : Int) (a sub : String)
     simp only [subAtom, firstErr, canBeAtom, canBeInt, negInt, nb, nl, if_false]
     congr 1
     rw [← filterMap_ite]
-    apply List.filterMap_congr
-    intro t _
+    congr 1
+    funext t
     by_cases hb' : b = t.1.length <;> by_cases hl' : l = t.2.1.length <;>
       simp [unifyArg, bindVar, List.lookup, e6, hb', hl']
-  · have hn := (subTriples_nodup s).filter (fun t => decide (b = t.1.length ∧ l = t.2.1.length))
-    match hf : (subTriples s).filter (fun t => decide (b = t.1.length ∧ l = t.2.1.length)), hn with
-    | [], _ => simp
-    | [_], _ => simp
-    | t :: u :: r, hn' =>
-      exfalso
-      have ht : t ∈ (subTriples s).filter _ := by rw [hf]; simp
-      have hu : u ∈ (subTriples s).filter _ := by rw [hf]; simp
-      simp only [List.mem_filter, decide_eq_true_eq] at ht hu
-      have := subTriples_key s t u ht.1 hu.1 (by omega) (by omega)
-      subst this
-      simp at hn'
+  · have key : ∀ f : List (List Char × List Char × List Char),
+        f = (subTriples s).filter (fun t => decide (b = t.1.length ∧ l = t.2.1.length)) →
+        f.length ≤ 1 := by
+      intro f hf
+      have hn : f.Nodup := hf ▸ (subTriples_nodup s).filter _
+      match f, hf, hn with
+      | [], _, _ => simp
+      | [_], _, _ => simp
+      | t :: u :: r, hf, hn =>
+        exfalso
+        have ht : t ∈ (subTriples s).filter (fun t => decide (b = t.1.length ∧ l = t.2.1.length)) := by
+          rw [← hf]; simp
+        have hu : u ∈ (subTriples s).filter (fun t => decide (b = t.1.length ∧ l = t.2.1.length)) := by
+          rw [← hf]; simp
+        simp only [List.mem_filter, decide_eq_true_eq] at ht hu
+        have := subTriples_key s t u ht.1 hu.1 (by omega) (by omega)
+        subst this
+        simp at hn
+    exact key _ rfl
 
 /-- error table of sub_atom/5 in the order of the code: the atom (instantiation, type), the
     sub-atom, the three integers (types), then the three signs. -/
@@ -476,10 +489,12 @@ theorem C22_sub_atom_errors :
   · intros; simp [subAtom, Arg.toTerm]
   · intros; simp [subAtom, Arg.toTerm, Atomic.toTerm]
   · intros; simp [subAtom, firstErr, canBeAtom, Arg.toTerm]
-  · intro s l a sub t h; simp [subAtom, firstErr, h, canBeInt, Arg.toTerm]
-  · intro s b a sub t h1 h2; simp [subAtom, firstErr, h1, h2, canBeInt, Arg.toTerm]
-  · intro s b l sub t h1 h2 h3; simp [subAtom, firstErr, h1, h2, h3, canBeInt, Arg.toTerm]
-  · intro s l a sub k h1 h2 h3 hk; simp [subAtom, firstErr, h1, h2, h3, canBeInt, negInt, hk]
+  · intro s l a sub t h; simp only [subAtom, h, firstErr]; simp [canBeInt, firstErr, Arg.toTerm]
+  · intro s b a sub t h1 h2; simp only [subAtom, h1, h2, firstErr]; simp [canBeInt, firstErr, Arg.toTerm]
+  · intro s b l sub t h1 h2 h3
+    simp only [subAtom, h1, h2, h3, firstErr]; simp [canBeInt, firstErr, Arg.toTerm]
+  · intro s l a sub k h1 h2 h3 hk
+    simp only [subAtom, h1, h2, h3, firstErr]; simp [canBeInt, firstErr, negInt, hk]
 
 /-! ## char_type/2 -/
 
@@ -522,7 +537,7 @@ theorem C22_char_type_doc_example :
               "hexadecimal_digit", "lower", "octet", "prolog", "symbolic_control"].map fun n =>
               [("Type", Val.one (.atom n.toList))]) ++
            [[("Type", .app "lower" [charAtom 'a'])], [("Type", .app "upper" [charAtom 'A'])]]) := by
-  decide
+  rfl
 
 /-- error table of char_type/2: the character's type first, then the domain of the type, then the
     instantiation error when neither argument is ground. -/
@@ -557,14 +572,14 @@ theorem C22_ccodes_exact (n : Nat) : n ∈ ccodes 0x110000 ↔ validScalar (n : 
 
 /-! ## non-vacuity: the branches are reached -/
 
-example : atomLength (.con (.atom "aé€😀".toList)) (.var "N") = .ok [[("N", .one (.int 4))]] := by decide
-example : utf8Len "aé€😀".toList = 10 := by decide
-example : (subTriples "abc".toList).length = 10 := by decide
-example : subAtom (.con (.atom "abab".toList)) (.var "B") (.var "L") (.var "A") (.con (.atom "ab".toList))
+example : atomLength (.con (.atom ['a', 'é', '€', '😀'])) (.var "N") = .ok [[("N", .one (.int 4))]] := by rfl
+example : utf8Len ['a', 'é', '€', '😀'] = 10 := by decide
+example : (subTriples ['a','b','c']).length = 10 := by decide
+example : subAtom (.con (.atom ['a','b','a','b'])) (.var "B") (.var "L") (.var "A") (.con (.atom ['a','b']))
     = .ok [[("B", .one (.int 0)), ("L", .one (.int 2)), ("A", .one (.int 2))],
-           [("B", .one (.int 2)), ("L", .one (.int 2)), ("A", .one (.int 0))]] := by decide
-example : atomConcat (.var "X") (.var "X") (.con (.atom "abab".toList)) = .ok [[("X", .one (.atom "ab".toList))]] := by
-  decide
+           [("B", .one (.int 2)), ("L", .one (.int 2)), ("A", .one (.int 0))]] := by rfl
+example : atomConcat (.var "X") (.var "X") (.con (.atom ['a','b','a','b'])) = .ok [[("X", .one (.atom ['a','b']))]] := by
+  rfl
 example : validScalar 0xD7FF = true ∧ validScalar 0xD800 = false ∧ validScalar 0xDFFF = false ∧
     validScalar 0xE000 = true ∧ validScalar 0x10FFFF = true ∧ validScalar 0x110000 = false ∧
     validScalar (-1) = false ∧ validScalar (2 ^ 64 + 97) = false := by decide
